@@ -5,7 +5,9 @@
 
 #include <stdint.h>
 #include <stdio.h>
+#include <stdlib.h>
 #include <stdarg.h>
+#include <algorithm>
 #include <string>
 #include <vector>
 
@@ -46,6 +48,7 @@ struct Profile {
   int nkeys = 12;       // size of the numbered key universe
   // existence tracking only (no semantics): keeps most generated ops applicable
   std::vector<int> iters, snaps;
+  std::vector<std::string> used;   // key tokens written so far (range bounds are drawn from them)
 };
 
 int pick_from(const std::vector<int> &v) { return v[uni(0, (int)v.size() - 1)]; }
@@ -60,7 +63,15 @@ int fresh_id(const std::vector<int> &v, int max) {
 int snap_ref(const Profile &p) { return (!p.snaps.empty() && chance(90)) ? pick_from(p.snaps) : uni(0, 4); }
 
 // ---- keys ------------------------------------------------------------------
-std::string gen_key(const Profile &p) {
+std::string gen_key_raw(const Profile &p);
+std::string gen_key(Profile &p) {
+  std::string k = gen_key_raw(p);
+  if (p.used.size() < 64) p.used.push_back(k);
+  return k;
+}
+std::string gen_key(const Profile &p) { return gen_key_raw(p); }
+
+std::string gen_key_raw(const Profile &p) {
   int c = uni(0, 99);
   if (c < 62) return fmt("tk%04d", uni(0, p.nkeys - 1));
   if (c < 90) {
@@ -124,7 +135,11 @@ std::string gen_iter_action(const Profile &p) {
   return fmt("iter %d %s ", id, sk[uni(0, 4)]) + gen_key(p);
 }
 
-std::string gen_range_arg(const Profile &p) { return chance(55) ? std::string("-") : gen_key(p); }
+std::string gen_range_arg(const Profile &p) {
+  if (chance(45)) return "-";
+  if (!p.used.empty() && chance(75)) return p.used[uni(0, (int)p.used.size() - 1)];
+  return gen_key(p);
+}
 
 std::string gen_op(Profile &p, const std::vector<std::pair<int, OpK>> &weights) {
   OpK k = pick<OpK>(weights);
@@ -221,6 +236,9 @@ std::vector<std::pair<int, OpK>> weights_for(const std::string &kind) {
   if (kind == "C13")
     return {{24, PUT}, {8, DEL}, {5, BATCH}, {3, GET}, {12, FLUSH}, {12, CRANGE}, {4, COMPACT}, {6, REOPEN},
             {2, SNAP}, {1, RELEASE}, {6, ITER_NEW}, {10, ITER}, {2, ITER_DEL}, {2, CHECK}, {2, FILL}};
+  if (kind == "C17")
+    return {{26, PUT}, {8, DEL}, {6, BATCH}, {2, GET}, {12, FLUSH}, {12, CRANGE}, {3, COMPACT}, {12, REOPEN},
+            {2, SNAP}, {1, RELEASE}, {1, ITER_NEW}, {1, ITER}, {1, CHECK}, {3, FILL}, {1, READS}};
   if (kind == "C14")
     return {{26, PUT}, {8, DEL}, {6, BATCH}, {3, GET}, {12, FLUSH}, {14, CRANGE}, {4, COMPACT}, {5, REOPEN},
             {3, SNAP}, {1, RELEASE}, {1, ITER_NEW}, {2, ITER}, {1, ITER_DEL}, {2, CHECK}, {3, FILL}, {2, READS}, {1, PROP}};
@@ -238,8 +256,70 @@ std::string new_snap(Profile &p) {
 
 void skeleton(Profile &p, std::vector<std::string> &out) {
   int c = uni(0, 99);
-  if (c < 30) return;  // free-form only
-  if (c < 50) {
+  if (const char *force = getenv("VF_GEN_SKEL")) c = atoi(force);  // experiments only
+  if (c < 22) return;  // free-form only
+  if (c < 34) {
+    // a few small overlapping tables over a tiny key set, pushed to various depths, then partial-range compactions
+    int nk = uni(3, 6);
+    std::vector<std::string> ks;
+    for (int i = 0; i < nk; i++) ks.push_back(gen_key(p));
+    int nf = uni(2, 6);
+    for (int f = 0; f < nf; f++) {
+      int nu = uni(1, 3);
+      for (int u = 0; u < nu; u++) {
+        const std::string &k = ks[uni(0, nk - 1)];
+        out.push_back(chance(80) ? "put " + k + " " + gen_val(p) : "del " + k);
+      }
+      out.push_back("flush");
+      if (chance(30)) out.push_back(fmt("crange %d ", uni(0, 2)) + (chance(50) ? std::string("-") : ks[uni(0, nk - 1)]) + " " + (chance(50) ? std::string("-") : ks[uni(0, nk - 1)]));
+      if (chance(15)) out.push_back("reopen");
+    }
+    int nc = uni(1, 3);
+    for (int i = 0; i < nc; i++)
+      out.push_back(fmt("crange %d ", pick<int>({{5, 0}, {3, 1}, {1, 2}})) + (chance(35) ? std::string("-") : ks[uni(0, nk - 1)]) + " " + (chance(35) ? std::string("-") : ks[uni(0, nk - 1)]));
+    out.push_back("check");
+    return;
+  }
+  if (c < 46) {
+    // interval files: each table covers [lo,hi] of a small numbered key space (overlaps by construction), made by
+    // flush or by reopen (recovery writes level 0), some pushed down; then partial-range compactions whose input
+    // set must be expanded through overlapping files
+    int space = uni(6, 12);
+    int nf = uni(3, 8);
+    bool dense = chance(70);
+    int reopen_pct = pick<int>({{2, 100}, {2, 45}, {1, 0}});   // all tables via recovery (level 0 only) / mixed / all via flush
+    for (int f = 0; f < nf; f++) {
+      int lo = uni(0, space - 1), hi = uni(lo, std::min(space - 1, lo + uni(0, 5)));
+      if (dense) {
+        // every key of the interval is written, so overlapping tables always share user keys
+        for (int k = lo; k <= hi; k++) out.push_back(chance(88) ? fmt("put tk%04d ", k) + fmt("r%d.%d", uni(0, 99999), uni(1, 40)) : fmt("del tk%04d", k));
+      } else {
+        out.push_back(fmt("put tk%04d ", lo) + gen_val(p));
+        if (hi != lo) out.push_back(chance(85) ? fmt("put tk%04d ", hi) + gen_val(p) : fmt("del tk%04d", hi));
+        if (chance(40)) { int mid = uni(lo, hi); out.push_back(chance(70) ? fmt("put tk%04d ", mid) + gen_val(p) : fmt("del tk%04d", mid)); }
+      }
+      if (chance(12)) out.push_back(new_snap(p));
+      out.push_back(chance(reopen_pct) ? "reopen reuse=0" : "flush");
+      if (out.back() != "flush") { p.iters.clear(); p.snaps.clear(); }
+      if (reopen_pct != 100 && chance(10)) out.push_back(fmt("crange %d - -", uni(0, 1)));
+      // level 0 is compacted automatically at 4 files: partial-range compactions must come while it holds 2-3
+      if (f >= 1 && chance(40)) {
+        int b = uni(0, space - 1), e = uni(b, space - 1);
+        out.push_back(fmt("crange 0 %s %s", chance(20) ? "-" : fmt("tk%04d", b).c_str(), chance(30) ? "-" : fmt("tk%04d", e).c_str()));
+      }
+    }
+    int nc = uni(1, 4);
+    for (int i = 0; i < nc; i++) {
+      int b = uni(0, space - 1), e = uni(b, space - 1);
+      std::string bs = chance(25) ? std::string("-") : fmt("tk%04d", b), es = chance(25) ? std::string("-") : fmt("tk%04d", e);
+      out.push_back(fmt("crange %d ", pick<int>({{6, 0}, {3, 1}, {1, 2}})) + bs + " " + es);
+      if (chance(30)) out.push_back(fmt("compact tk%04d tk%04d", b, e));
+    }
+    out.push_back("check");
+    p.nkeys = space;
+    return;
+  }
+  if (c < 56) {
     // value pushed deep, tombstone (or overwrite) flushed above it, then compact the upper level
     std::string k = gen_key(p);
     int depth = uni(0, 4);
@@ -399,6 +479,120 @@ std::string build_crash_case(const std::string &kind_in) {
   return text;
 }
 
+// ---- codec cases (C15 log framing, C16 tables/snappy, C17 edits) -----------------
+std::string join_ints(const std::vector<int> &v) {
+  std::string s;
+  for (size_t i = 0; i < v.size(); i++) s += (i ? "," : "") + std::to_string(v[i]);
+  return s.empty() ? "" : s;
+}
+
+int log_len(bool thorough) {
+  int c = uni(0, 99);
+  const int B = 32768;
+  if (c < 25) return uni(0, 40);
+  if (c < 45) return uni(100, 3000);
+  if (c < 70) { int k = uni(1, 3); return k * (B - 7) + uni(-16, 16); }        // around fragment capacity
+  if (c < 85) { int k = uni(1, 3); return k * B + uni(-16, 16); }
+  if (c < 95) return uni(B - 40, B + 40);
+  return uni(0, thorough ? 1000000 : 200000);
+}
+
+std::string build_codec15(bool thorough) {
+  int c = uni(0, 99);
+  if (c < 12) return fmt("crc seed=%d maxlen=%d align=%d step=%d\n", uni(1, 999999), thorough ? 4096 : uni(64, 1200), uni(0, 15), thorough ? 1 : uni(1, 7));
+  std::vector<int> pre, recs;
+  int np = chance(50) ? 0 : uni(1, 4), nr = uni(1, 6);
+  for (int i = 0; i < np; i++) pre.push_back(log_len(thorough));
+  // steer the prefix so that the second writer starts near a block boundary
+  if (np && chance(60)) pre.back() = 32768 - 7 + uni(-14, 14) - (np > 1 ? 0 : 0);
+  for (int i = 0; i < nr; i++) recs.push_back(log_len(thorough));
+  std::string s = fmt("log seed=%d", uni(1, 999999));
+  if (np) s += " pre=" + join_ints(pre);
+  s += " recs=" + join_ints(recs);
+  int total = 0;
+  for (int x : pre) total += x + 7;
+  for (int x : recs) total += x + 7;
+  int d = uni(0, 99);
+  if (d < 35) {
+    if (total < 3000) s += " cuts=all";
+    else {
+      std::vector<int> cuts;
+      for (int i = 0; i < 40; i++) cuts.push_back(chance(50) ? uni(0, total) : (uni(0, total / 32768 + 1) * 32768 + uni(-12, 12)));
+      s += " cuts=" + join_ints(cuts);
+    }
+  } else if (d < 85) {
+    int off = chance(40) ? (uni(0, total / 32768 + 1) * 32768 + uni(0, 10)) : uni(0, total + 20);
+    if (off < 0) off = 0;
+    int mode = uni(0, 9);
+    if (mode < 5) s += fmt(" mut=%d:1:x:%d", off, 1 << uni(0, 7));
+    else if (mode < 7) s += fmt(" mut=%d:%d:s:%d", off, uni(1, 3), chance(50) ? 0 : 255);
+    else if (mode < 9) s += fmt(" mut=%d:%d:x:%d", off, uni(2, 9), uni(1, 255));
+    else s += fmt(" mut=%d:512:z:0", (off / 512) * 512);
+  }
+  return s + "\n";
+}
+
+std::string build_codec16(bool thorough) {
+  int c = uni(0, 99);
+  if (c < 30) {
+    return fmt("snappy seed=%d len=%d mode=%s muts=%d\n", uni(1, 999999),
+               pick<int>({{3, uni(0, 200)}, {3, uni(200, 5000)}, {2, uni(60000, 70000)}, {1, thorough ? uni(100000, 1200000) : uni(5000, 140000)}}),
+               pick<std::string>({{1, "rand"}, {1, "text"}, {3, "mixed"}}).c_str(), uni(0, 30));
+  }
+  int n = pick<int>({{2, uni(0, 3)}, {4, uni(4, 60)}, {3, uni(60, 600)}, {1, thorough ? uni(5000, 50000) : uni(600, 4000)}});
+  int vmax = pick<int>({{3, 0}, {4, 60}, {3, 600}, {1, 8000}, {1, n < 200 ? (thorough ? 60000 : 20000) : 100}});
+  return fmt("table seed=%d n=%d cmp=%d ikeys=%d vmax=%d klen=%d prefix=%d bs=%d ri=%d comp=%d bloom=%d mmap=%d cache=%d fill=%d\n",
+             uni(1, 999999), n, pick<int>({{5, 0}, {2, 1}, {2, 2}}), uni(0, 1), vmax, pick<int>({{3, 4}, {3, 16}, {1, 200}}),
+             pick<int>({{4, 0}, {2, 8}, {1, 150}}), pick<int>({{2, 256}, {3, 1024}, {3, 4096}, {1, 65536}}), pick<int>({{2, 1}, {2, 2}, {4, 16}, {1, 128}}),
+             uni(0, 1), pick<int>({{3, 0}, {4, 10}, {1, 1}, {1, 30}}), uni(0, 1), uni(0, 2), uni(0, 1));
+}
+
+std::string u64_boundary() {
+  int c = uni(0, 99);
+  if (c < 50) {
+    int k = uni(0, 9);
+    unsigned long long v = (k >= 9) ? 0x8000000000000000ULL : (1ULL << (7 * k));
+    long d = uni(-1, 1);
+    return std::to_string(v + (unsigned long long)d);
+  }
+  if (c < 60) return "18446744073709551615";
+  if (c < 80) return std::to_string(uni(0, 1000));
+  return std::to_string(((unsigned long long)uni(0, 0x7ffffffe) << 31) ^ (unsigned long long)uni(0, 0x7ffffffe));
+}
+
+std::string ikey_tok() {
+  // arbitrary bytes, at least 8 long (user key + 8-byte trailer)
+  int ul = pick<int>({{3, 0}, {4, uni(1, 12)}, {1, uni(100, 400)}});
+  std::string s = ul ? fmt("r%d.%d+", uni(0, 99999), ul) : "";
+  return s + fmt("r%d.8", uni(0, 99999));
+}
+
+std::string build_codec17(bool thorough) {
+  std::string s = "edit";
+  if (chance(40)) s += " cmp=" + pick<std::string>({{3, "tleveldb.BytewiseComparator"}, {1, "tvf.reverse"}, {1, "tx"}, {1, "tname_with-dash"}});
+  if (chance(60)) s += " log=" + u64_boundary();
+  if (chance(40)) s += " prev=" + u64_boundary();
+  if (chance(60)) s += " next=" + u64_boundary();
+  if (chance(60)) s += " seq=" + u64_boundary();
+  int ncp = pick<int>({{5, 0}, {3, uni(1, 3)}}), nd = pick<int>({{4, 0}, {4, uni(1, 8)}, {1, thorough ? uni(500, 3000) : uni(20, 200)}}),
+      na = pick<int>({{3, 0}, {5, uni(1, 8)}, {1, thorough ? uni(1000, 5000) : uni(20, 300)}});
+  for (int i = 0; i < ncp; i++) s += fmt(" cp:%d:", uni(0, 6)) + ikey_tok();
+  for (int i = 0; i < nd; i++) s += fmt(" del:%d:", uni(0, 6)) + u64_boundary();
+  for (int i = 0; i < na; i++) s += fmt(" add:%d:", uni(0, 6)) + u64_boundary() + ":" + u64_boundary() + ":" + ikey_tok() + ":" + ikey_tok();
+  if (chance(70)) s += fmt(" perm=%d", uni(1, 999999));
+  return s + "\n";
+}
+
+bool is_codec_kind(const std::string &k) { return k.compare(0, 5, "codec") == 0; }
+
+std::string build_codec_case(const std::string &kind_in) {
+  bool thorough = kind_in.find("-thorough") != std::string::npos;
+  std::string b = kind_in.substr(0, kind_in.find('-'));
+  if (b == "codec15") return build_codec15(thorough);
+  if (b == "codec16") return build_codec16(thorough);
+  return build_codec17(thorough);
+}
+
 bool is_crash_kind(const std::string &k) {
   std::string b = k.substr(0, k.find('-'));
   return b == "C02" || b == "C03" || b == "C04" || b == "C05" || b == "C12" || b == "C17";
@@ -408,6 +602,15 @@ bool is_crash_kind(const std::string &k) {
 
 std::string gen_case(const char *kind, uint64_t seed, int size) {
   std::string k = kind;
+  if (k.compare(0, 4, "hist") == 0) {
+    std::string hk = k.substr(4);
+    Gen<std::string> g4 = rc::gen::exec([hk]() { return build_case(hk); });
+    return g4(rc::Random(seed), size).value();
+  }
+  if (is_codec_kind(k)) {
+    Gen<std::string> g3 = rc::gen::exec([k]() { return build_codec_case(k); });
+    return g3(rc::Random(seed), size).value();
+  }
   if (is_crash_kind(k)) {
     Gen<std::string> g2 = rc::gen::exec([k]() { return build_crash_case(k); });
     return g2(rc::Random(seed), size).value();
